@@ -442,6 +442,16 @@ class Transaction:
                 # Known-pre-commit-point failure - safe to clean up written files
                 self._rollback()
                 raise e
+            except BaseException:
+                # KeyboardInterrupt / SystemExit (asynchronous, not an Exception)
+                # can surface anywhere in the commit section - including AFTER
+                # the pointer flip, e.g. while the lock is being released. The
+                # outcome is unknown here, so treat it like an ambiguous commit:
+                # keep every written file (a durable snapshot may reference
+                # them) and mark the transaction finished, so that a context
+                # manager's __exit__ -> rollback() cannot delete committed data.
+                self._rollback(delete_files=False)
+                raise
 
         # This line should not be reached if max_retries > 0, but added for completeness
         self._rollback()
